@@ -392,6 +392,38 @@ def gen_state_graph(rng, kinds):
     return state
 
 
+REAL_STATE_PROGRAMS = ["two-flows-one-action", "shared-action-owner-finishes", "action-status-through-reference",
+                       "set-variable", "finished-child-then-idle", "activated-restarts", "regex-variable", "int-keys"]
+OR_GROUP_PROGRAM = 'flow main\n  match E1() or E2()\n  send Out1(v=1)\n  match E3() and E2()\n  send Out2(v=2)\n  match Never()\n'
+
+
+def real_states():
+    """Reachable states of the real interpreter (probe programs, 0..2 events), for X1 and for the
+    decidable hypothesis of C11_state_roundtrip."""
+    import logging
+
+    from harness import v2util
+
+    logging.disable(logging.CRITICAL)
+    out = []
+    progs = [(n, PROBES[n]) for n in REAL_STATE_PROGRAMS] + [("or-and-group", OR_GROUP_PROGRAM)]
+    for name, src in progs:
+        try:
+            st = _fresh_state(src)
+            st = v2util.start_main(st)
+            out.append((name + "@0", st))
+            started = [e["action_uid"] for e in st.outgoing_events if isinstance(e, dict) and "action_uid" in e]
+            for k, ev in enumerate([{"type": "E1", "x": "a"}, {"type": "E2"}]):
+                import copy
+
+                st = copy.deepcopy(st)
+                st = v2util.step(st, dict(ev))
+                out.append((f"{name}@{k + 1}", st))
+        except Exception:
+            continue
+    return out
+
+
 def x1_case(root, mode):
     """Run the real encoder/decoder on `root`; -> (coq case term, info) ; mode 0/1."""
     fl, ser, ca = _impl()
@@ -778,7 +810,7 @@ def _run_trace(src, events, cut, mode, pick):
     from harness import v2util
     from nemoguardrails.colang.v2_x.runtime import serialization as ser
 
-    signal.signal(signal.SIGALRM, _alarm_handler)
+    signal.signal(signal.SIGVTALRM, _alarm_handler)
     _Clock.offset = 0.0
     _random.choice = (lambda seq: seq[0]) if pick == 0 else (lambda seq: seq[-1])
     info = {}
@@ -793,11 +825,11 @@ def _run_trace(src, events, cut, mode, pick):
             k = int(ev["action_uid"][1:])
             ev["action_uid"] = started[k] if k < len(started) else "none"
         try:
-            signal.alarm(STEP_SECONDS)
+            signal.setitimer(signal.ITIMER_VIRTUAL, STEP_SECONDS)      # CPU time of this process: immune to machine load
             try:
                 st = v2util.step(st, ev) if ev.get("type") != "__start__" else v2util.start_main(st)
             finally:
-                signal.alarm(0)
+                signal.setitimer(signal.ITIMER_VIRTUAL, 0)
             o = list(st.outgoing_events)
             for e in o:
                 if isinstance(e, dict) and str(e.get("type", "")).startswith("Start") and "action_uid" in e:
@@ -889,6 +921,13 @@ def worker_main():
                             if mode == "aged" and gi.get("flows_after", 0) < li.get("flows_after", 0):
                                 rec["aged_removed"] += 1
                             if got != live:
+                                # confirm: a difference is reported only if it reproduces
+                                live2, _li2 = _run_trace(src, evs, cut, "live", pick)
+                                got2, _gi2 = _run_trace(src, evs, cut, mode, pick)
+                                rec["runs"] += 2
+                                if live2 != live or got2 != got:
+                                    rec["unconfirmed_diffs"] = rec.get("unconfirmed_diffs", 0) + 1
+                                    continue
                                 rec["diffs"].append({"history": hist[: cut - 1], "continuation": cont, "mode": mode, "pick": pick,
                                                      "live": live, "other": got, "shape": li.get("shape")})
                         rec["cuts"] += 1
@@ -914,8 +953,11 @@ Open Scope Z_scope.
 
 
 def _abstract_state(state, base, actnum):
-    """Real State -> term of V2/Cleanup.v `state` (actions are opaque numbers, clock in microseconds)."""
+    """Real State -> term of V2/Cleanup.v `state` (actions are opaque numbers, clock in microseconds).
+    base=None: the timestamps and the actions are abstracted to 0 (what BridgeDef.alpha ts0 reads)."""
     def us(dt):
+        if base is None:
+            return 0
         d = dt - base
         return d.days * 86400 * 10**6 + d.seconds * 10**6 + d.microseconds
 
@@ -932,7 +974,7 @@ def _abstract_state(state, base, actnum):
     acts = []
     for k, a in state.actions.items():
         actnum.setdefault(id(a), len(actnum))
-        acts.append(f"({cstr(k)}, {actnum[id(a)]})")
+        acts.append(f"({cstr(k)}, {0 if base is None else actnum[id(a)]})")
     return f"(mkState {clist(rows)} {byf} {clist(acts)} 0)"
 
 
@@ -1166,7 +1208,7 @@ def run(tier, seed, replay=None):
     for br in b["broken"]:
         out.add_broken(br, b["log"])
     with C.BuildLock():
-        okm, logm = C.coq_make(["theories/V2/SerialRun.vo", "theories/V2/CleanupRun.vo"])
+        okm, logm = C.coq_make(["theories/V2/SerialRun.vo", "theories/V2/CleanupRun.vo", "theories/V2/BridgeRun.vo"])
     if not okm:
         out.add_broken("coq:theories/V2/SerialRun.v|CleanupRun.v", logm)
 
@@ -1259,6 +1301,43 @@ def run(tier, seed, replay=None):
             seen_hash.add(hsh)
             if info["nodes"] >= 15 and "__ref_count" in term:
                 x1_nontrivial += 1
+    # reachable states of the real interpreter: X1 + the hypothesis of C11_state_roundtrip
+    real_terms, real_names, alpha_terms = [], [], []
+    if not replay:
+        for name, st in real_states():
+            try:
+                term, info, _dec = x1_case(st, 1)
+                hp, rt, _im, _kp = render_graph(st)
+                alpha_terms.append(f"({hp}, {rt}, {_abstract_state(st, None, {})})")
+            except Unrenderable:
+                continue
+            terms.append(term)
+            infos.append(info)
+            real_terms.append(term)
+            real_names.append(name)
+    hyps_bad = []
+    if okm and real_terms:
+        bools, err = C.run_cases(PID + "_hyps", PREAMBLE, real_terms, "check_hyps", shard=4)
+        if err:
+            out.add_broken("assumption:state_hyps(coqc)", err)
+        else:
+            hyps_bad = [n for n, ok in zip(real_names, bools) if not ok]
+            if hyps_bad:
+                out.add_broken("assumption:state_hyps-on-real-states",
+                               "the decidable hypothesis of C11_state_roundtrip (canonical callbacks, State shape) is false on "
+                               "reachable states, or is not re-established by the model's save/restore: " + ", ".join(hyps_bad))
+    # the bridge: BridgeDef.alpha on the rendered graph = the harness's abstraction of the same state
+    if okm and alpha_terms:
+        pre = PREAMBLE_CL.replace("V2.CleanupRun.", "V2.CleanupRun V2.Serial V2.BridgeDef V2.BridgeRun.")
+        bools, err = C.run_cases(PID + "_alpha", pre, alpha_terms, "check_alpha", shard=4)
+        if err:
+            out.add_broken("correspondence:C11-bridge(coqc)", err)
+        else:
+            badn = [n for n, ok in zip(real_names, bools) if not ok]
+            out.coverage["real_states_checked_against_alpha"] = len(bools)
+            if badn:
+                out.add_broken("correspondence:C11-bridge",
+                               "BridgeDef.alpha on the rendered real State differs from the harness's abstraction: " + ", ".join(badn))
     x1_dis = 0
     if okm and terms:
         bools, err = C.run_cases(PID + "_x1", PREAMBLE, terms, "check_case", shard=12)
@@ -1315,8 +1394,23 @@ def run(tier, seed, replay=None):
                     out.add_broken("correspondence:C11-cleanup",
                                    f"{len(bad)} disagreements between _clean_up_state and V2/Cleanup.v; smallest: {c['term'][:1500]} model={model[:1200]}")
 
+    # the hypothesis of the clean-up theorems (`refs_ok`) on the same abstracted real states
+    if okm and x3_n:
+        bools, err = C.run_cases(PID + "_refs", PREAMBLE_CL, [c["term"] for c in x3cases], "check_refs", shard=40)
+        if err:
+            out.add_broken("assumption:refs_ok(coqc)", err)
+        else:
+            bad = [c for c, ok in zip(x3cases, bools) if not ok]
+            out.coverage["real_states_checked_against_refs_ok"] = len(bools)
+            if bad:
+                c = min(bad, key=lambda c: len(c["term"]))
+                out.add_broken("assumption:refs_ok-on-real-states",
+                               f"{len(bad)} reachable states violate the reference closure assumed by C11_cleanup_lookups/"
+                               f"_total/_later_clock_ext (or the model's clean-up breaks it); smallest: {c['term'][:1500]}")
+
     # ---- collect X2
-    x2 = {"programs": 0, "skipped": 0, "runs": 0, "cuts": 0, "nontrivial_cuts": 0, "aged_removed": 0, "truncated": 0}
+    x2 = {"programs": 0, "skipped": 0, "runs": 0, "cuts": 0, "nontrivial_cuts": 0, "aged_removed": 0, "truncated": 0,
+          "unconfirmed_diffs": 0}
     inv_bad = []
     for p, rpth, job in procs:
         _, err = p.communicate()
@@ -1334,7 +1428,7 @@ def run(tier, seed, replay=None):
                 x2["skipped"] += 1
                 continue
             x2["programs"] += 1
-            for k in ("runs", "cuts", "nontrivial_cuts", "aged_removed"):
+            for k in ("runs", "cuts", "nontrivial_cuts", "aged_removed", "unconfirmed_diffs"):
                 x2[k] += r.get(k, 0)
             x2["truncated"] += 1 if r.get("truncated") else 0
             for f in r["save_failures"]:
@@ -1394,6 +1488,7 @@ def run(tier, seed, replay=None):
                                "probe_programs": sorted(PROBES)},
         "traces_validated_against_impl": len(terms) + x3_n,
         "correspondence_disagreements": x1_dis,
+        "real_states_checked_against_state_hyps": len(real_terms),
         "oracle_violations": len(out.findings),
     })
     out.assumptions += [
@@ -1402,8 +1497,11 @@ def run(tier, seed, replay=None):
         "recursion limit abstracted to a depth bound (model LIMIT=150; generated graphs are shallower, cyclic ones exceed any bound)",
         "dict keys: str/int/bool/None (float and tuple keys not generated); strings as UTF-8 bytes",
         "the re-creation of head callbacks is modelled and tied by X1 (mode 1) and the translator, the round-trip theorem relates callbacks to None",
+        "a behavioural difference is reported only if it reproduces when both runs are repeated (count of non-reproducing differences: coverage.input_distribution.x2.unconfirmed_diffs)",
         "behavioural claim (same outgoing events after restore / after clean-up) is validated by exploration: continuations of length <=3 over 7 events, random.choice patched to first/last, clock substituted in statemachine/flows",
         "C11_cleanup_commutes_partial assumes the matcher index lists only heads of instances that are not done: checked on every real state at every cut point",
+        "C11_cleanup_lookups/_total/_preserves_refs/_later_clock_ext assume the reference closure refs_ok: its decidable version is evaluated inside Coq on every abstracted real state of X3 (before and after the model's clean-up)",
+        "C11_state_roundtrip assumes state_hyps (State shape, canonical callbacks): evaluated inside Coq on reachable real states",
     ]
     if tier == "thorough" and b["ok"]:
         ok, log = C.coqchk(PID, b["files"])
